@@ -62,7 +62,7 @@ class MCPEnv(RL4COEnvBase):
         chosen[torch.arange(batch_size).to(td.device), selected] = True
 
         # We are done if we choose enough sets
-        done = td["i"] >= (td["n_sets_to_choose"] - 1)
+        done = td["i"] >= (td["n_sets_to_choose"].reshape_as(td["i"]) - 1)
 
         # The reward is calculated outside via get_reward for efficiency, so we set it to -inf here
         reward = torch.ones_like(done) * float("-inf")
